@@ -47,6 +47,17 @@ def run_demo(wt, d, with_change):
     os.makedirs(inwt)
     shutil.copy(os.path.join(d, f), inwt)
     cmd = f"python3 SEEDED/X/{f}" if f.endswith(".py") else f"bash SEEDED/X/{f}"
+    # demonstrations that drive a hooks-on binary (schedule points) say so in their header
+    text = open(os.path.join(d, f)).read()
+    if "rce_verif" in text and f.endswith(".py"):
+        hb = sh("cargo build --release --offline --target-dir target/verif_demo", cwd=wt, env=dict(os.environ, RUSTFLAGS="--cfg rce_verif"))
+        if hb.returncode != 0:
+            return None, "hooks build failed: " + hb.stdout[-300:]
+        hooks_bin = os.path.join(wt, "target/verif_demo/release/rust_chess_engine")
+        if "target/verif_demo" in text:
+            cmd += f" {hooks_bin}"
+        else:
+            cmd += f" {env['RCE_BIN']} {hooks_bin}"
     r = sh(cmd, cwd=wt, env=env, timeout=900)
     return r.returncode == 0, f"exit {r.returncode}: " + r.stdout[-300:].replace("\n", " | ")
 
